@@ -2,9 +2,11 @@
 
 (a) correspondence: the Coq encoder models of coq/Fmt.v, FmtDeriv.v (auto_extended, conll + dependency column, json, deriv, the batch
     assembly / numbering of to_string, xml_of, to_jigg_xml, to_prolog_*, to_mathml) against the real encoders, exactly;
-    coq/FmtProlog.v (prolog, English and Japanese: per tree and per batch with the header lines), coq/FmtHtml.v (html: per tree, per batch
-    = the whole document, and the regex segmentation of category texts) against the real printers, exact strings; and the Coq READERS of
-    the prolog text (token level), of the MathML element tree and of the deriv text (coq/FmtDerivText.v) run on the REAL printers' output.
+    coq/FmtProlog.v (prolog, English and Japanese: per tree and per batch with the header lines), coq/FmtHtml.v + FmtHtmlDoc.v (html: per tree,
+    per batch = the whole document, and the regex segmentation of category texts) against the real printers, exact strings; and the Coq READERS
+    of the prolog text (token level; the document readers incl. the one that reads the header declarations, FmtPrologHeader.v), of the MathML
+    element tree, of the whole html document (FmtHtmlDoc.dec_html_doc) and of the deriv text (coq/FmtDerivText.v) run on the REAL printers' output.
+    The page template / f-strings of to_mathml, the prolog header and the str.lower table are generated on every run (translate/gen_fmt.py -> GenFmt.v).
 (b) oracle (harness/fmt_oracle.py + fmt_dec.py): independent readers of all eleven formats decode what the real
     encoders print and are compared with the derivation that was encoded.
 """
@@ -154,7 +156,7 @@ def run(ctx):
     from depccg.printer.my_json import json_of
     from depccg.printer.deriv import deriv_of
     rng = ctx.rng
-    ctx.build(['P_C07.vo'])
+    ctx.build(['P_C07.vo'], gens=('tables', 'fmt'))      # fmt: page template / f-strings of html.py, header of prolog.py, str.lower table -> GenFmt.v
     ctx.theorems('P_C07')
 
     nb = 70 if ctx.quick else 1500          # random batches per language
@@ -162,6 +164,7 @@ def run(ctx):
     seen_trees = set()
     # text-level models added later: prolog (FmtProlog.v), html (FmtHtml.v), the deriv text reader (FmtDerivText.v)
     pl_cases, pl_descr, dt_cases, dt_descr, html_cases, html_descr = [], [], [], [], [], []
+    hdoc_cases, hdoc_descr = [], []            # whole html documents: html_doc against to_string, the document reader on the REAL text
     seen_scan = set()
 
     def add_text_level(t, lang, kind, only_prolog=False):
@@ -230,9 +233,12 @@ def run(ctx):
             pl_cases.append(c)
             pl_descr.append(d)
             ctx.count(f'corr_prolog_doc:{lang}')
-        if not ctx.quick or len(batch) == 0 or ctx.stats.get(f'corr_prolog_doc:{lang}', 0) % 2 == 1 or any(len(x) == 0 for x in batch):
-            html_cases.append(fmt_html_cases.batch_case(batch))
-            html_descr.append(d)
+        add_html_doc(batch, lang)
+
+    def add_html_doc(batch, lang):
+        hdoc_cases.append(fmt_html_cases.batch_case(batch))
+        hdoc_descr.append({'lang': lang, 'kind': 'document', 'shape': [len(x) for x in batch], 'b': batch})
+        ctx.count(f'corr_html_doc:{lang}')
 
     for lang in ('en', 'ja'):
         set_global_language_to(lang)
@@ -268,6 +274,8 @@ def run(ctx):
                         add_tree(st.tree, lang, kind)
             if bi % (8 if ctx.quick else 16) == 0:
                 add_batch(b, lang)
+            elif bi % (4 if ctx.quick else 8) == 2:
+                add_html_doc(b, lang)                     # further whole html documents for the document reader
             if all(f in nums for f in fmt_oracle.FORMATS):
                 shape = glist(b, lambda trees: glist(trees, lambda _: 'tt'))
                 pairs = lambda l: glist(l, lambda p: f'({gnat(p[0])},{gnat(p[1])})')
@@ -329,14 +337,23 @@ def run(ctx):
         ctx.obligation(f'oracle: records of format {f} were decoded and compared ({ctx.stats.get("decoded:" + f, 0)})', ok,
                        'too few records decoded - the encoder raised (C19) or the reader was skipped')
 
+    db = ctx.coq_cases('html_doc', fmt_html_cases.PRE_HTML, hdoc_cases, chunk=max(2, len(hdoc_cases) // 16 + 1),
+                       describe=lambda i: {k: v for k, v in hdoc_descr[i].items() if k != 'b'})
+    for i in (db or [])[:3]:
+        names = ['html_doc = to_string(format=html)', 'dec_html_doc on the real text = html_doc_views', 'numbers / score texts / header words read from the real text = the Python objects',
+                 'page frame readable (doctype, head, body, /html)']
+        sub = ctx.coq_cases(f'html_doc_detail_{i}', fmt_html_cases.PRE_HTML, [fmt_html_cases.batch_case_detail(hdoc_descr[i]['b'], k) for k in range(4)])
+        ctx.notes.append(f'html document disagreement on a {hdoc_descr[i]["lang"]} batch of shape {hdoc_descr[i]["shape"]}: ' + ', '.join(names[k] for k in (sub or [])))
+
     ctx.trusted += ['hand-written models coq/Fmt.v, coq/FmtDeriv.v of printer/auto.py (auto_extended_of), printer/conll.py, printer/my_json.py, printer/deriv.py and of the batch loops of printer/__init__.py, '
                     'xml.py, jigg_xml.py, prolog.py, html.py (tied by the correspondence cases of this run: exact strings / ordered dicts / numbers)',
                     'translator translate/gen_tables.py (denormalize tables, puncts, cat_split class)',
+                    'translator translate/gen_fmt.py (_MATHML_MAIN, the templates of _mathml_subtree, the f-strings of to_mathml and _mathml_cat, _prolog_header: string literals of the source; the table of str.lower is taken from the running interpreter, whose per-character lower-casing - everything but the final-sigma rule - is trusted to be what str.lower does inside a word)',
                     'json.dumps / json.loads, lxml serialisation and html.parser (library text round trips)',
                     'harness/fmt_dec.py readers of the eleven formats and harness/fmt_oracle.py (format definitions restated in Python)',
                     'hand-written models coq/FmtProlog.v (printer/prolog.py: _prolog_category_string, _escape_prolog, _prolog_string, to_prolog_en, to_prolog_ja; '
-                    'str.lower modelled on A-Z only - trees whose category names the real str.lower changes elsewhere are not compared, counted as prolog:outside_lower_domain), '
-                    'coq/FmtHtml.v (printer/html.py: _mathml_cat incl. the regular expression as a scanner, _mathml_subtree, to_mathml + _MATHML_MAIN; format constants hand-copied), '
+                    'str.lower modelled one character at a time from the table of the running interpreter GenFmt.py_lower_table - trees with a context-dependent character (U+03A3) in a category name are not compared, counted as prolog:outside_lower_domain; the header is the generated GenFmt.prolog_header_src), '
+                    'coq/FmtHtml.v (printer/html.py: _mathml_cat incl. the regular expression as a scanner, _mathml_subtree; the templates of these two are written in the model and compared with those of the source (GenFmt.v) at every build: C07_html_tree_templates_from_source), coq/FmtHtmlDoc.v (to_mathml, str.format of _MATHML_MAIN; page template and f-strings from the generated GenFmt.v), '
                     'coq/FmtDerivText.v (reader only) - tied by the exact-string correspondence sets prolog / html / deriv_text of this run; rule tables from GenTables.v',
                     'harness/fmt_prolog_cases.py, fmt_html_cases.py, fmt_derivtext_cases.py (case construction; re.findall / html.escape / the real printers are called there)']
     return ctx.finish(
@@ -354,8 +371,8 @@ def run(ctx):
              'per batch, plus a malformed stream (token without word, token keys shadowing cat/children/type).  Text-level sets: prolog = print_prolog_en / print_prolog_ja and '
              'prolog_en_doc / prolog_ja_doc (header lines included) against _prolog_string / to_prolog_ja / to_string, plus the Coq token-level reader run on the REAL text '
              '(inside pl_okb_*), on every correspondence tree and on trees aimed at the wrappers conj / conj2 / lp, labels outside the tables, quotes / backslashes in quoted fields, '
-             'missing words; html = mathml_subtree, the serialised element tree, dec_mathml, hparse on the REAL string, html_doc against to_string(format=html), mathml_scan against '
-             're.findall on category texts and bracket soups, html_escape against html.escape; deriv_text = the Coq text reader on the REAL deriv_of text (inside deriv_text_okb)',
+             'missing words, category names with non-ASCII cased letters; both prolog document readers (header stripped / header declarations read) on the REAL to_string text; html = mathml_subtree, the serialised element tree, dec_mathml, hparse on the REAL string, mathml_scan against '
+             're.findall on category texts and bracket soups, html_escape against html.escape; html_doc = html_doc against to_string(format=html) and the document reader dec_html_doc on the REAL text (sentence numbers, tree indices, score texts, header words against the Python objects, views against html_doc_views); deriv_text = the Coq text reader on the REAL deriv_of text (inside deriv_text_okb)',
         assumptions=['words, token values and rule labels: printable, non-empty, no blank, no backslash (the quantifier of the property); token keys do not include cat / children '
                      '(json) or start / span / id (xml, jigg)',
                      'n-best trees of one sentence are over the same tokens (jigg_xml and html print the tokens / words of the first tree only)',
@@ -363,7 +380,7 @@ def run(ctx):
                      'rule symbols do not start with "-" (deriv) ; categories wf (CatFacts.wf) for the Coq round-trip theorems',
                      'scores are formatted by Python and passed to the model as opaque text',
                      'prolog round-trip theorems: quoted fields without backslash, category atoms are names (pl_okb_en / pl_okb_ja, both hold on every shipped lexical category: '
-                     'P_C07 ex_shipped_prolog_*); model of str.lower exact on A-Z only (ASCII category names)',
+                     'P_C07 ex_shipped_prolog_*); document theorems over the generated header, whose declarations must be op(601, xfx, /), op(601, xfx, \\), multifile and discontiguous ccg/2, id/2; model of str.lower: every code point from the interpreter table, texts with U+03A3 outside (C07_prolog_lower_*: ASCII text, i.e. every shipped category, is lower-cased by the A-Z rule)',
                      'html round-trip theorems: no newline inside a category feature (cats_nonl; C07_html_roundtrip_newline_refuted is the witness that html.py:63 loses the brackets otherwise), '
-                     'words / rule labels non-empty for the text-level statement; the document around the <math> elements is compared as a string only',
+                     'words / rule labels non-empty for the text-level statements; document theorem C07_html_doc_roundtrip: additionally the score text has none of the five characters html.escape rewrites (true of every .5e text); what it needs of _MATHML_MAIN is re-checked on the generated text at every build (one field {0}, <body> after a well-nested <head>, whitespace around the field, </body></html>) - attribute values, CSS and script text of the template are free',
                      'deriv text theorem: words non-empty and free of str.isspace() characters, printed categories and rule symbols free of newlines, symbols not starting with "-"'])
